@@ -308,6 +308,7 @@ def block(name, lines):
 
 
 def compare(impl, model):
+    impl = [l for l in impl if not l.startswith("PANIC ")]      # panic messages are for the monitors
     if impl and impl[0].endswith("-timeout"):
         return "the implementation did not finish this scenario (no output within the stall limit)"
     if model and model[0].endswith("-timeout"):
